@@ -503,13 +503,16 @@ func ruleNumStream(p *Prog, r *Report) {
 		{"rpm", []ruleFn{ruleRPM}, func(rule, key string) bool {
 			return rule == "R-RPM-SCAN" || rule == "R-RPM-DIGITS" || rule == "R-RPM-CHAIN" && has(key, "release decides", "before the release")
 		}, map[string]int{"R-RPM-SCAN": 1, "R-RPM-DIGITS": 1, "R-RPM-CHAIN": 2}},
-		{"alpine", []ruleFn{ruleAlpine}, func(rule, key string) bool {
-			return rule == "R-ALPINE-NUM" || rule == "R-ALPINE-CHAIN" && has(key, "numeric components decide first", "revision decides last")
-		}, map[string]int{"R-ALPINE-NUM": 1, "R-ALPINE-CHAIN": 2}},
-		{"gem", []ruleFn{ruleGem}, func(rule, key string) bool { return rule == "R-GEM-TABLE" }, map[string]int{"R-GEM-TABLE": 3}},
-		{"maven", []ruleFn{ruleMaven, ruleMavenToken}, func(rule, key string) bool {
-			return rule == "R-MAVEN-TOKEN" || rule == "R-MAVEN-RANK" || rule == "R-MAVEN-ALIAS"
-		}, map[string]int{"R-MAVEN-TOKEN": 1, "R-MAVEN-RANK": 2, "R-MAVEN-ALIAS": 2}},
+		{"alpine", []ruleFn{ruleAlpine, ruleAlpineGrammar}, func(rule, key string) bool {
+			return rule == "R-ALPINE-NUM" || rule == "R-ALPINE-GRAMMAR" || rule == "R-ALPINE-CHAIN" && has(key, "numeric components decide first", "revision decides last")
+		}, map[string]int{"R-ALPINE-NUM": 1, "R-ALPINE-CHAIN": 2, "R-ALPINE-GRAMMAR": 1}},
+		{"pypi", []ruleFn{rulePepTable}, func(rule, key string) bool { return rule == "R-PEP440-SPELL" }, map[string]int{"R-PEP440-SPELL": 1}},
+		{"gem", []ruleFn{ruleGem}, func(rule, key string) bool {
+			return rule == "R-GEM-TABLE" || rule == "R-GEM-TRIM" || rule == "R-GEM-ONLYTRIM"
+		}, map[string]int{"R-GEM-TABLE": 3, "R-GEM-TRIM": 1, "R-GEM-ONLYTRIM": 1}},
+		{"maven", []ruleFn{ruleMaven, ruleMavenToken, ruleMavenNumTok}, func(rule, key string) bool {
+			return rule == "R-MAVEN-TOKEN" || rule == "R-MAVEN-RANK" || rule == "R-MAVEN-ALIAS" || rule == "R-MAVEN-NUMTOK"
+		}, map[string]int{"R-MAVEN-TOKEN": 1, "R-MAVEN-RANK": 2, "R-MAVEN-ALIAS": 2, "R-MAVEN-NUMTOK": 1}},
 	}
 	runImports(p, r, specs)
 }
